@@ -1,5 +1,5 @@
 (* C15 -- facts about the specification, the regenerated table, argmin/argmax and the cumulative functions. *)
-Require Import SF.Prelude SF.Value SF.Dtype SF.Reduce Gen.Gen_c15_table Proofs.ReduceFold Proofs.ReduceRefine.
+Require Import SF.Prelude SF.Value SF.Dtype SF.Reduce Gen.Gen_c15_table Proofs.ReduceFold Proofs.ReduceRefine Proofs.ReduceMain.
 From Coq Require Import QArith.
 Local Open Scope Z_scope.
 
